@@ -151,6 +151,7 @@ def body(prop, cfg, tier, seed, replay, scratch, violations, known_hits, notes, 
         lines = os.path.join(scratch, "%s-%s.lines" % (hname, s))
         start = 0
         attempts = 0
+        slow_reruns = 0
         while True:
           rc, err = lpv.run_harness(exes[hname], s, n, lines, only=only, extra_env=henv, start=start, append=(attempts > 0))
           attempts += 1
@@ -168,6 +169,31 @@ def body(prop, cfg, tier, seed, replay, scratch, violations, known_hits, notes, 
                 start = last + 1
                 notes.append("harness %s seed %s resumed at case %d after the per-invocation time limit" % (hname, s, start))
                 continue
+          if rc == 99 and only is None and slow_reruns < 2:
+            # the per-case CPU budget ran out.  Slow is not wrong: the case is run again on its own with six times the budget; if it
+            # finishes, its lines replace the partial ones and the run goes on after it.  Only a case that does not finish then
+            # either (or a third case running out of budget in one run) is reported as a hang.
+            m0 = None
+            for l in open(lines, errors="replace"):
+                if l.startswith("#died"):
+                    m0 = re.search(r"case=(\d+)", l)
+            if m0:
+                c = int(m0.group(1))
+                slow_reruns += 1
+                one = lines + ".case%d" % c
+                env2 = dict(henv or {}); env2["LPV_TIMEOUT_SCALE"] = "6"
+                rc2, err2 = lpv.run_harness(exes[hname], s, n, one, only=c, extra_env=env2, timeout=3600)
+                if rc2 == 0:
+                    kept = [l for l in open(lines, errors="replace") if not l.startswith("#died") and l.split(" ", 1)[0] != str(c)]
+                    with open(lines, "w") as fo:
+                        fo.writelines(kept)
+                        fo.writelines(open(one, errors="replace").readlines())
+                    notes.append("harness %s seed %s case %d is slow: it ran out of the per-case CPU budget and finished within six times that budget" % (hname, s, c))
+                    start = c + 1
+                    continue
+                rc, err = rc2, err2
+                with open(lines, "a") as fo:
+                    fo.writelines([l for l in open(one, errors="replace") if l.startswith("#died")])
           if True:
             died = None
             for l in open(lines, errors="replace"):
